@@ -11,6 +11,13 @@ CLAIMS = {
                   "positive, CR LF join, arrival order) about a Gallina model of reply/replies; model tied to the code by an "
                   "exhaustive sweep of all 65536 codes and enumerated/random reply sequences.",
              design="4/C15", note=LEAF_NOTE, technique="Coq proof (induction over appends) + exhaustive/differential correspondence with the C++ classes"),
+ "C06": dict(text="Theorems for all reply texts and all 65536 ports: soundness, completeness and rejection for the 227 and 229 "
+                  "parsers (numbers taken are the numbers written, never wrapped), PORT/227 round trip for every IPv4 address "
+                  "and port, EPRT syntax and port round trip, PORT refused for non-IPv4; model tied to the private static helpers "
+                  "by exhaustive sweeps over all ports/port pairs/delimiters and enumerated malformed texts. The dispatch half "
+                  "(which method, which endpoint is connected to / advertised) is decided on the protocol model, see level_note.",
+             design="4/C06", note=LEAF_NOTE + " make_address/inet_pton (validity of the dotted quad h1.h2.h3.h4) is delegated to Boost/libc and not modelled.",
+             technique="Coq proof (parser soundness/completeness, formatter round trip) + exhaustive differential correspondence"),
  "C16": dict(text="Theorems (iff) characterising when the 213 parsers yield a value and which value, for all codes and texts; "
                   "listing lines equal the LF-split specification; model tied to the code by enumerated payloads over a small "
                   "alphabet, limit values and random payloads.",
